@@ -166,7 +166,8 @@ def main():
 
     def is_tagged(n, fm):
         pr = fm.get("props", [])
-        return pid in pr or any(x in pr for x in alias.get(n, ()))
+        al = alias.get(n, ())
+        return pid in pr or "*" in al or any(x in pr for x in al)
     for n, u in us.items():
         r = results[(n, False)]
         if r.status == "undecided" and r.meta is None:
